@@ -364,7 +364,9 @@ Fixpoint retransmit (s : sys) (l : list (N * bytes)) : sys * bool :=
   match l with
   | [] => (s, true)
   | (_, pkt) :: r => let ok := snd (write s pkt) in
- let s := fst (write s pkt) in if ok then retransmit s r else (s, false)
+ let s := fst (write s pkt) in
+ (* every unfinished handshake re-sent occupies a slot of the send quota (saturating_sub; fix: 7234faf) *)
+ if ok then retransmit (set_c s (with_quota (c s) (quota (c s) - 1))) r else (s, false)
   end.
 
 (* one turn of `select!`: an inbound packet if the framing layer has one, else a queued message *)
